@@ -13,7 +13,11 @@ from . import common as C
 from . import gen
 from . import progcheck as P
 from . import tracecheck as T
-from .c11 import PROMPT, BAD_OUT
+from .c11 import PROMPT
+
+# characters that would make the line-oriented transcript ambiguous (line breaks, the prompt and tag characters); other
+# control characters pass through the `[stdout] ...` lines unchanged and are compared like any text
+BAD_OUT = set('\n\r[>') | {'\x85', '\u2028', '\u2029', '\x0b', '\x0c', '\x1c', '\x1d', '\x1e'}
 from .lang import render_cmd
 from .refinterp import Machine, Limits, Exit, EncErr, NotAdmitted
 
@@ -211,6 +215,17 @@ def _case(i):
         else:
             nrep = min(nrep, 2300)
             prog += gen.push_value(code, 3) + [(5, nrep, 4, None)] + [(1, 1, sink, None)] * nrep
+    elif i % 9 == 4:
+        # return-rich programs: ♡ to the same command, two ♡ in a row, the first command as a jump source, call / return
+        r = rng.random()
+        if r < 0.4:
+            name, prog = 'tmpl:self_return', gen.tmpl_self_return(rng, with_read=False)
+        elif r < 0.6:
+            name, prog = 'tmpl:two_returns', gen.tmpl_two_returns(rng)
+        elif r < 0.8:
+            name, prog = 'tmpl:first_command_source', gen.tmpl_first_command_source(rng)
+        else:
+            name, prog = 'tmpl:heart_return', gen.tmpl_heart_return(rng)
     elif rng.random() < 0.15:
         # a ♡ evaluated before any jump of this program: must do nothing in a fresh (or cleared) state
         name = 'early_heart'
